@@ -5,6 +5,7 @@ import (
 	"fmt"
 	"net"
 	"testing"
+	"time"
 
 	"github.com/insomniacslk/dhcp/dhcpv6"
 	"pgregory.net/rapid"
@@ -24,15 +25,15 @@ type c16Level struct {
 	HasRID bool    `json:"has_rid"`
 	RIDEnt uint32  `json:"rid_ent"`
 	RID    obs.Hex `json:"rid"`
-	Extra  bool    `json:"extra"` // an unrelated option (relay port) at this level
+	Extra  bool    `json:"extra"`           // an unrelated option (relay port) at this level
 	Order  int     `json:"order,omitempty"` // which permutation of this level's options (relay message, interface-id, relay port, remote-id) is used
 }
 
 type c16Case struct {
 	Inner  obs.Hex    `json:"inner"` // reference encoding of a (non-relay) message
 	Levels []c16Level `json:"levels"`
-	Reply  obs.Hex    `json:"reply"` // reference encoding of the reply placed innermost by the relay-reply builder
-	Wire   bool       `json:"wire"`  // pass the chain over the wire before using it
+	Reply  obs.Hex    `json:"reply"`            // reference encoding of the reply placed innermost by the relay-reply builder
+	Wire   bool       `json:"wire"`             // pass the chain over the wire before using it
 	Poison int        `json:"poison,omitempty"` // >0: the builder is first given a chain of this depth whose innermost relay lacks its relay message (refused), then the real one
 }
 
@@ -388,6 +389,36 @@ var c16b = newChk("C16", "message-builders",
 		// nil inputs are refused
 		if _, err := dhcpv6.NewAdvertiseFromSolicit(nil); err == nil {
 			return obs.Failf("C16/advertise/nil", "error", "accepted nil")
+		}
+		// the builders read their input, they do not change it; and what they returned stays what it was while the
+		// builders run again on another client's message
+		inBefore := m.ToBytes()
+		var keep [][]byte
+		for _, x := range []*dhcpv6.Message{adv, req, rep} {
+			if x != nil {
+				keep = append(keep, x.ToBytes())
+			} else {
+				keep = append(keep, nil)
+			}
+		}
+		other := &dhcpv6.Message{MessageType: m.MessageType, TransactionID: dhcpv6.TransactionID{0xD0, 0xD1, 0xD2}}
+		other.AddOption(dhcpv6.OptClientID(&dhcpv6.DUIDLL{HWType: 1, LinkLayerAddr: net.HardwareAddr{0xde, 0xad, 0xbe, 0xef, 0, 1}}))
+		other.AddOption(dhcpv6.OptServerID(&dhcpv6.DUIDEN{EnterpriseNumber: 4242, EnterpriseIdentifier: []byte("other-server")}))
+		other.AddOption(&dhcpv6.OptIANA{IaId: [4]byte{0xD, 0xE, 0xC, 0}, T1: time.Hour, T2: 2 * time.Hour})
+		other.AddOption(&dhcpv6.OptIAPD{IaId: [4]byte{0xD, 0xE, 0xC, 1}})
+		other.AddOption(&dhcpv6.OptionGeneric{OptionCode: 14})
+		for _, b := range []func(*dhcpv6.Message, ...dhcpv6.Modifier) (*dhcpv6.Message, error){dhcpv6.NewAdvertiseFromSolicit, dhcpv6.NewRequestFromAdvertise, dhcpv6.NewReplyFromMessage} {
+			if o, err := b(other); err == nil {
+				_ = o.ToBytes()
+			}
+		}
+		if after := m.ToBytes(); !bytes.Equal(after, inBefore) {
+			return obs.Failf("C16/builders/changed-their-input", "the message given to the builders is unchanged", "differs at byte %d", firstDiff(after, inBefore))
+		}
+		for i, x := range []*dhcpv6.Message{adv, req, rep} {
+			if x != nil && !bytes.Equal(x.ToBytes(), keep[i]) {
+				return obs.Failf("C16/builders/earlier-result-changed", "a built message is unchanged by later builds from other inputs", "builder %d: differs at byte %d", i, firstDiff(x.ToBytes(), keep[i]))
+			}
 		}
 		rec.Class(fmt.Sprintf("input type %d", t.Type))
 		if ok {
